@@ -150,10 +150,10 @@ func (sn *snapshot) materialise(w *world, zp *zipPool, wipeMeta bool) (*lower, e
 
 // instance is one incarnation of the blobpacked store over a lower state.
 type instance struct {
-	lw      *lower
-	plan    *inject.Plan
-	s       blobserver.Storage
-	kvName  string
+	lw       *lower
+	plan     *inject.Plan
+	s        blobserver.Storage
+	kvName   string
 	auditing atomic.Bool // calls made by an audit are not counted
 }
 
